@@ -197,42 +197,45 @@ def memload_views_unit(prefix):
 def memstore_unit(res):
     ex = eng()
     for prefix in (None, "x"):
+      # the written memory operand is a pure destination (mov/str) or a read-modify-write operand (x86 'addq $1, 8(%rax)')
+      for role in ("destination", "src_dst"):
         for (b1, i1, o1), (b2, i2, o2) in itertools.product(itertools.product((False, True), repeat=3), repeat=2):
-            n1, n2, m1, m2 = BStr.fresh("n1", 1), BStr.fresh("n2", 1), BStr.fresh("m1", 1), BStr.fresh("m2", 1)
-            v1, v2, s1, s2 = z3.Ints("v1 v2 s1 s2")
-            p1, p2, q1, q2 = z3.Bools("p1 p2 q1 q2")
-            pre_c = [x.wf() for x in (n1, n2, m1, m2)] + [x.is_one_of(NAMES) for x in (n1, n2, m1, m2)]
+              n1, n2, m1, m2 = BStr.fresh("n1", 1), BStr.fresh("n2", 1), BStr.fresh("m1", 1), BStr.fresh("m2", 1)
+              v1, v2, s1, s2 = z3.Ints("v1 v2 s1 s2")
+              p1, p2, q1, q2 = z3.Bools("p1 p2 q1 q2")
+              pre_c = [x.wf() for x in (n1, n2, m1, m2)] + [x.is_one_of(NAMES) for x in (n1, n2, m1, m2)]
 
-            def run():
-                R = lambda nm: ex.instantiate("RegisterOperand", kw=dict(name=nm, prefix=prefix))
-                imm = lambda v: ex.instantiate("ImmediateOperand", kw=dict(value=SNum(v, True)))
-                mk = lambda b, i, o, nb, ni, v, s, p, q: ex.instantiate("MemoryOperand", kw=dict(
-                    offset=imm(v) if o else None, base=R(nb) if b else None, index=R(ni) if i else None, scale=SNum(s, True),
-                    pre_indexed=SBool(p), post_indexed=SBool(q)))
-                mem = mk(b1, i1, o1, n1, m1, v1, s1, p1, q1)
-                dst = mk(b2, i2, o2, n2, m2, v2, s2, p2, q2)
-                iform = ex.instantiate("InstructionForm", kw=dict(mnemonic="st", operands=[]))
-                iform.fields["_semantic_operands"] = {"source": [R("c")], "destination": [R("c"), dst], "src_dst": []}
-                return ex.call_method("KernelDG", "is_memstore", SObj("KernelDG"), [mem, iform])
+              def run():
+                  R = lambda nm: ex.instantiate("RegisterOperand", kw=dict(name=nm, prefix=prefix))
+                  imm = lambda v: ex.instantiate("ImmediateOperand", kw=dict(value=SNum(v, True)))
+                  mk = lambda b, i, o, nb, ni, v, s, p, q: ex.instantiate("MemoryOperand", kw=dict(
+                      offset=imm(v) if o else None, base=R(nb) if b else None, index=R(ni) if i else None, scale=SNum(s, True),
+                      pre_indexed=SBool(p), post_indexed=SBool(q)))
+                  mem = mk(b1, i1, o1, n1, m1, v1, s1, p1, q1)
+                  dst = mk(b2, i2, o2, n2, m2, v2, s2, p2, q2)
+                  iform = ex.instantiate("InstructionForm", kw=dict(mnemonic="st", operands=[]))
+                  iform.fields["_semantic_operands"] = ({"source": [R("c")], "destination": [R("c"), dst], "src_dst": []} if role == "destination" else
+                                                        {"source": [R("c")], "destination": [R("c")], "src_dst": [dst]})
+                  return ex.call_method("KernelDG", "is_memstore", SObj("KernelDG"), [mem, iform])
 
-            paths = ex.explore(run, pre_c)
+              paths = ex.explore(run, pre_c)
 
-            def post(v, p):
-                if (b1, i1, o1) != (b2, i2, o2):
-                    want = z3.BoolVal(False)
-                else:
-                    c = [s1 == s2, p1 == p2, q1 == q2]
-                    if b1:
-                        c.append(bstr_eq(n1, n2))
-                    if i1:
-                        c.append(bstr_eq(m1, m2))
-                    if o1:
-                        c.append(v1 == v2)
-                    want = z3.And(c)
-                got = v.t if isinstance(v, SBool) else z3.BoolVal(bool(v))
-                return got == want
+              def post(v, p):
+                  if (b1, i1, o1) != (b2, i2, o2):
+                      want = z3.BoolVal(False)
+                  else:
+                      c = [s1 == s2, p1 == p2, q1 == q2]
+                      if b1:
+                          c.append(bstr_eq(n1, n2))
+                      if i1:
+                          c.append(bstr_eq(m1, m2))
+                      if o1:
+                          c.append(v1 == v2)
+                      want = z3.And(c)
+                  got = v.t if isinstance(v, SBool) else z3.BoolVal(bool(v))
+                  return got == want
 
-            res.add_paths(paths, post, kind=f"{prefix}{int(b1)}{int(i1)}{int(o1)}-{int(b2)}{int(i2)}{int(o2)}")
+              res.add_paths(paths, post, kind=f"{prefix}{int(b1)}{int(i1)}{int(o1)}-{int(b2)}{int(i2)}{int(o2)}/{role}")
     return res
 
 
